@@ -408,7 +408,43 @@ def execute(sc):
                         spot_oracles(V, opt, sc, bounds, og, stats)
                     continue
                 if name in ("propose", "propose_add"):
-                    prop = lib_call("propose_evaluation", opt.propose_evaluation)
+                    # "the data the next model is fitted to": every regressor that is consulted while this proposal is
+                    # produced - in this process or, unpickled, in a (simulated) pool worker - must hold the current data.
+                    # The simulator owns the pool, so worker-side copies are observable here (they are not with real processes).
+                    from inference.gp import GpRegressor as _GPR
+
+                    consulted = {}
+                    saved_ = {}
+
+                    def _wrap(nm_):
+                        orig_ = getattr(_GPR, nm_)
+
+                        def w_(self_, *a_, **k_):
+                            if id(self_) not in consulted:
+                                try:
+                                    consulted[id(self_)] = np.array(self_.y, dtype=float, copy=True).reshape(-1)
+                                except Exception:  # noqa
+                                    consulted[id(self_)] = None
+                            return orig_(self_, *a_, **k_)
+
+                        saved_[nm_] = orig_
+                        setattr(_GPR, nm_, w_)
+
+                    for nm_ in ("__call__", "gradient", "spatial_derivatives"):
+                        if nm_ in _GPR.__dict__:
+                            _wrap(nm_)
+                    try:
+                        prop = lib_call("propose_evaluation", opt.propose_evaluation)
+                    finally:
+                        for nm_, orig_ in saved_.items():
+                            setattr(_GPR, nm_, orig_)
+                    stats["regressors_consulted_for_proposals"] += len(consulted)
+                    stale_ = [y_ for y_ in consulted.values() if y_ is not None and not np.array_equal(y_, np.array(my, dtype=float))]
+                    if stale_:
+                        _viol(V, "data.refit", "a regressor consulted while the proposal was produced (%s, %d process(es)) was fitted to %d "
+                              "points; the data set holds %d: added evaluations are not part of the model behind the next proposal"
+                              % (sc["optimizer"], int(sc.get("n_processes", 1)), stale_[0].size, len(my)))
+                        break
                     p = np.asarray(prop, dtype=float).reshape(-1)
                     stats["proposals"] += 1
                     if p.shape[0] != d or not np.all(np.isfinite(p)) or (p < lo).any() or (p > hi).any():
